@@ -419,8 +419,8 @@ def c10_units(th):
          U(["GRP"], query=True, h=H(items=("#11,", "#11\n"))),   # ... in the data separator / terminator byte
          U(["SENS"], query=True, h=H(items=('-171,"Invalid expression;ext ""one"""', '0,"No error"'))),   # error/event queue items
          U(["SENS", "AC"], query=True, h=H(items=("\x80", "5"))),   # an unformattable datum: the message must fail, not emit ',5'
-         U(["Bq"], query=True, h=H(items=("1,100000,2", "ASC2"))),   # a derived enum with a numeric suffix; a list with a long middle element
-         U(["GRP"], query=True, h=H(items=("-7,30000", "CHAN12345")))]
+         U(["Bq"], query=True, h=H(items=("2,100000,6", "ASC2"))),      # a list with a long middle element (growable list type: first element even), then a derived enum with a numeric suffix as the last datum
+         U(["GRP"], query=True, h=H(items=("CHAN12345", "3,100000,4")))]  # ... and a list of the fixed-capacity list type (first element odd) as the last datum
     e = [U(["A"]), U(["GRP", "X"], data=[DATA["str"]], h=H(pulls=["req"])), U(["*OPC"])]
     return q, e
 
